@@ -1,6 +1,7 @@
 package zzstore
 
 import (
+	"strconv"
 	"sync"
 
 	verif "github.com/google/badwolf/internal/zzverif"
@@ -8,6 +9,7 @@ import (
 	"github.com/google/badwolf/storage"
 	"github.com/google/badwolf/storage/memory"
 	"github.com/google/badwolf/triple"
+	"github.com/google/badwolf/triple/node"
 )
 
 // C07: two goroutines operate on one graph / one store; the engine explores
@@ -197,4 +199,57 @@ func HarnessC07Concurrent() {
 		verif.Reach("done")
 		verif.Assert(len(a) == 1 && len(b) == 1, "C07/concurrent-lookups-complete")
 	}
+}
+
+// C07 (large batches): one AddTriples call with BATCH triples (more than any
+// chunk size an implementation might index between two lock acquisitions)
+// against a reader that tests the first and then the last triple of the batch:
+// whoever sees the first sees the last.  The data is concrete; the
+// interleaving of the writer and the reader is what the engine explores.
+// Natively the reader spins until it sees the first triple and the whole
+// experiment is repeated on fresh graphs.
+func HarnessC07BigBatch() {
+	n := verif.Param("BATCH", 1100)
+	batch := make([]*triple.Triple, n)
+	for i := range batch {
+		sp := &spec{sb: 'a', pb: 'p', ob: 'x'}
+		s, err := node.NewNodeFromStrings("/t", "n"+strconv.Itoa(i))
+		verif.Assume(err == nil)
+		t, err := triple.New(s, sp.build().Predicate(), sp.build().Object())
+		verif.Assume(err == nil)
+		batch[i] = t
+	}
+	first, last := batch[0], batch[n-1]
+	rounds := 1
+	if !verif.Symbolic() {
+		rounds = 200
+	}
+	torn := false
+	for r := 0; r < rounds && !torn; r++ {
+		st := memory.NewStore()
+		g, err := st.NewGraph(ctx, "?g")
+		verif.Assume(err == nil)
+		var wg sync.WaitGroup
+		var e1, e2 bool
+		wg.Add(2)
+		go func() {
+			defer wg.Done()
+			g.AddTriples(ctx, batch)
+		}()
+		go func() {
+			defer wg.Done()
+			if verif.Symbolic() {
+				e1, _ = g.Exist(ctx, first)
+			} else {
+				for i := 0; i < 10000000 && !e1; i++ {
+					e1, _ = g.Exist(ctx, first)
+				}
+			}
+			e2, _ = g.Exist(ctx, last)
+		}()
+		wg.Wait()
+		torn = e1 && !e2
+	}
+	verif.Reach("done")
+	verif.Assert(!torn, "C07/batch-add-is-atomic-for-lookups")
 }
